@@ -53,10 +53,14 @@ class Result:
 def main():
     prop, tier, seed = sys.argv[1], sys.argv[2], int(sys.argv[3])
     only = sys.argv[4] if len(sys.argv) > 4 else None
-    for m in sorted(os.listdir(os.path.dirname(os.path.abspath(__file__)))):
-        if m.startswith("h_") and m.endswith(".py"):
-            importlib.import_module(m[:-3])
-    out = {"evaluations": 0, "distinct_nontrivial": 0, "violations": [], "samples": [], "rule": [], "checks": {}, "undecided": []}
+    out0_undecided = []
+    modname = "h_" + prop.lower()
+    if os.path.exists(os.path.join(os.path.dirname(os.path.abspath(__file__)), modname + ".py")):
+        try:
+            importlib.import_module(modname)      # only this property's checks are loaded
+        except Exception as e:
+            out0_undecided.append("%s failed to import: %s: %s" % (modname, type(e).__name__, str(e)[:200]))
+    out = {"evaluations": 0, "distinct_nontrivial": 0, "violations": [], "samples": [], "rule": [], "checks": {}, "undecided": out0_undecided}
     import harness as _H          # the h_* modules registered with the module named `harness`, not __main__
 
     for name, fn, quick in _H.CHECKS.get(prop, []):
